@@ -462,13 +462,75 @@ def fixed_case(rng, net):
     return txt, {"calls": len(calls), "max_on_one_junction": max(n_valid.values()) if n_valid else 0}
 
 
+def _oq(v):
+    f = float(v)
+    return "None" if math.isnan(f) else "(Some %s)" % cq(Fraction(f))
+
+
+def extgrid_result_case(rng, net):
+    """real ExtGrid.extract_results on a node pit whose MDOTSLACKINIT are multiples of 60 (even split over <= 6
+    ext grids is exact); in_service / type flags re-drawn so that out-of-service and t-type rows sit between p rows"""
+    import pandapipes.component_models as cm
+    pf, bsm, IN, IB, ps = _mods()
+    t = net.ext_grid
+    if len(t) > 1:
+        keep = rng.randrange(len(t))                       # one in-service p grid stays (the net must stay supplied)
+        for k, idx in enumerate(t.index):
+            if k != keep:
+                t.at[idx, "in_service"] = rng.random() < 0.6
+                t.at[idx, "type"] = rng.choice(["p", "pt", "pt", "t"])
+    drive.stages(net, use_numba=False)
+    node_pit = net["_pit"]["node"]
+    node_pit[:, IN.MDOTSLACKINIT] = [60.0 * rng.randint(-9, 9) for _ in range(len(node_pit))]
+    cm.ExtGrid.extract_results(net, net["_options"], None, "hydraulics")
+    lk = ps.get_lookup(net, "node", "index")["junction"]
+    labels = sorted(set(int(j) for j in t.junction.values))
+    rows = ["eg %s %s %s" % (cz(j), cbool(ty in ("p", "pt")), cbool(bool(s))) for j, ty, s in
+            zip(t.junction.values, t.type.values, t.in_service.values)]
+    txt = "(mkE %s %s %s %s)" % (clist(["(%s, %s)" % (cz(l), cnat(lk[l])) for l in labels]), clist(rows),
+                                 clist([_q(v) for v in node_pit[:, IN.MDOTSLACKINIT]]),
+                                 clist([_oq(v) for v in net.res_ext_grid.mdot_kg_per_s.values]))
+    act = [int(j) for j, ty, s in zip(t.junction.values, t.type.values, t.in_service.values) if s and ty in ("p", "pt")]
+    return txt, {"rows": len(t), "max_active_on_one_junction": max([act.count(j) for j in act] or [0]),
+                 "inactive_rows": len(t) - len(act)}
+
+
+def constflow_result_cases(rng, net):
+    """real ConstFlow.extract_results of Sink / Source / MassStorage with integer mdot / scaling"""
+    import pandapipes.component_models as cm
+    pf, bsm, IN, IB, ps = _mods()
+    for tbl in ("sink", "source", "mass_storage"):
+        if tbl in net and len(net[tbl]):
+            net[tbl]["mdot_kg_per_s"] = [float(rng.randint(-6, 9)) for _ in range(len(net[tbl]))]
+            net[tbl]["scaling"] = [float(rng.choice([1, 1, 2, 3, 0, -1])) for _ in range(len(net[tbl]))]
+    drive.stages(net, use_numba=False)
+    lk = ps.get_lookup(net, "node", "index")["junction"]
+    active = ps.get_lookup(net, "node", "active_hydraulics")
+    supplied = [int(j) for j in net.junction.index if active[lk[int(j)]]]
+    out = []
+    for comp in (cm.Sink, cm.Source, cm.MassStorage):
+        tbl = comp.table_name()
+        if tbl not in net or len(net[tbl]) == 0:
+            continue
+        t = net[tbl]
+        comp.extract_results(net, net["_options"], None, "hydraulics")
+        res = net["res_" + tbl].mdot_kg_per_s.values
+        resl = ["None" if math.isnan(float(v)) else "(Some %s)" % cz(_ints([v])[0]) for v in res]
+        rows = ["cf %s %s %s %s" % (cz(j), cz(m), cz(sc), cbool(bool(i))) for j, m, sc, i in
+                zip(t.junction.values, t.mdot_kg_per_s.values, t.scaling.values, t.in_service.values)]
+        txt = "(mkR %s %s %s)" % (clist([cz(j) for j in supplied]), clist(rows), clist(resl))
+        n_unsup = sum(1 for j in t.junction.values if int(j) not in supplied)
+        out.append((txt, {"table": tbl, "rows": len(t), "unsupplied_rows": n_unsup, "oos": int((~t.in_service.values).sum())}))
+    return out
+
+
 MATRIX_HEAD = ("From Coq Require Import ZArith QArith List Bool.\nFrom PP Require Import C01.Model C01.Corr.\n"
                "Import ListNotations.\n")
 
 
 def cases_file(kind, records):
-    okf = {"m": "mcase_ok", "s": "scase_ok", "l": "lcase_ok", "f": "fcase_ok"}[kind]
-    typ = {"m": "mcase", "s": "scase", "l": "lcase", "f": "fcase"}[kind]
+    okf = {"m": "mcase_ok", "s": "scase_ok", "l": "lcase_ok", "f": "fcase_ok", "e": "ecase_ok", "r": "rcase_ok"}[kind]
+    typ = {"m": "mcase", "s": "scase", "l": "lcase", "f": "fcase", "e": "ecase", "r": "rcase"}[kind]
     return MATRIX_HEAD + "Definition cs : list %s := [\n%s\n].\nEval vm_compute in (summary %s cs).\n" % (
         typ, ";\n".join(records), okf)
 
